@@ -151,6 +151,10 @@ pub struct TcpFlow {
     server_data: Vec<TcpData>,
     client_http_parsed: bool,
     server_http_parsed: bool,
+    /// Sequence number of the client's SYN
+    client_isn: u32,
+    /// Sequence number of the server's SYN+ACK, once it was seen
+    server_isn: Option<u32>,
 }
 
 /// Quick check if HTTP data is complete for parsing (supports HTTP/1.x and HTTP/2)
@@ -180,6 +184,8 @@ impl TcpFlow {
             server_ip: dst_ip,
             client_port: src_port,
             server_port: dst_port,
+            client_isn: tcp_data.sequence,
+            server_isn: None,
             client_data: vec![tcp_data],
             server_data: Vec::new(),
             client_http_parsed: false,
@@ -205,9 +211,37 @@ impl TcpFlow {
         let origin = data.first().map_or(0, |tcp_data| tcp_data.sequence);
         sorted_data.sort_by_key(|tcp_data| tcp_data.sequence.wrapping_sub(origin) as i32);
 
+        // The stream starts right after the SYN (which consumes one sequence number). When the
+        // SYN+ACK was not captured, fall back to the earliest payload seen for the server side
+        let isn = if is_client {
+            Some(self.client_isn)
+        } else {
+            self.server_isn
+        };
+        let mut next = match isn {
+            Some(isn) => isn.wrapping_add(1),
+            None => sorted_data
+                .iter()
+                .find(|tcp_data| !tcp_data.data.is_empty())
+                .map_or(0, |tcp_data| tcp_data.sequence),
+        };
+
+        // Only the contiguous prefix is a byte stream: stop at the first hole instead of
+        // gluing together segments that are not adjacent, and skip bytes already covered
         let mut full_data = Vec::new();
         for tcp_data in sorted_data {
-            full_data.extend_from_slice(&tcp_data.data);
+            if tcp_data.data.is_empty() {
+                continue;
+            }
+            let ahead = tcp_data.sequence.wrapping_sub(next) as i32;
+            if ahead > 0 {
+                break;
+            }
+            let covered = usize::try_from(ahead.unsigned_abs()).unwrap_or(usize::MAX);
+            if let Some(fresh) = tcp_data.data.get(covered..) {
+                full_data.extend_from_slice(fresh);
+                next = next.wrapping_add(u32::try_from(fresh.len()).unwrap_or(u32::MAX));
+            }
         }
         full_data
     }
@@ -282,6 +316,13 @@ fn process_tcp_packet(
     };
 
     if let Some(flow) = tcp_flow {
+        if !is_client
+            && flow.server_isn.is_none()
+            && tcp.get_flags() & pnet::packet::tcp::TcpFlags::SYN != 0
+        {
+            flow.server_isn = Some(tcp.get_sequence());
+        }
+
         if !tcp.payload().is_empty() {
             let tcp_data = TcpData { sequence: tcp.get_sequence(), data: Vec::from(tcp.payload()) };
 
